@@ -6,6 +6,7 @@ import FsVerif.Proofs.BufExtra
 import FsVerif.Proofs.Machine
 import FsVerif.Proofs.PosEquiv
 import FsVerif.Proofs.CBeltClock
+import FsVerif.Proofs.FleetStat
 namespace FsVerif.Props.C19
 open FsVerif PosStore
 
@@ -37,6 +38,10 @@ theorem conveyors_time_monotone :
     (∀ (s : CBelt) (op : CBelt.Op), s.now ≤ (s.step op).1.now) ∧ (∀ (s : SlotBelt) (op : SlotBelt.Op), s.now ≤ (s.step op).1.now) :=
   ⟨CBelt.step_now_mono, SlotBelt.step_now_mono⟩
 
+
+/-- The fleet model: the clock never goes back, whatever the operation or kernel event (any state). -/
+theorem fleet_time_monotone (s : FleetStore) (op : FleetStore.Op) : s.now ≤ (s.step op).1.now :=
+  FleetStore.step_now_mono s op
 
 /-- BufferStore: the clock only moves forward (adv adds, settle / kstep keep it). -/
 theorem buf_time_monotone {s : BufStore} (h : BufStore.ReachD s) :
